@@ -1,6 +1,9 @@
 ---------------------------- MODULE ImplMontSop ----------------------------
 (* Level B: exhaustive check of the transcribed sum_of_products<2>, U512::divrem *)
 (* and the binary extended Euclid inversion at small limb width.                 *)
+(* Scale caveat: the accumulator has two spare limbs; at W = 1 that is a factor 4  *)
+(* of headroom (2^128 in the code), so W = 1 models are faithful only for M <= 13  *)
+(* (M = 15 overflows the model's accumulator, not the code's).                     *)
 EXTENDS ImplMont
 VARIABLES a0, a1, b0, b1
 CONSTANT BSet
